@@ -34,7 +34,7 @@ theorem cnt_nil (ex : List Nat) : cnt [] ex = 0 := rfl
 
 theorem step_Inv (cs : CS) (op : COp) (h : Inv cs) : Inv (step cs op).1 := by
   cases op with
-  | sw op =>
+  | sw op ov =>
     cases op with
     | dial v c p a e b d r => exact dial_J cs.sw cs.g cs.limTaint v c p a e b d r h
     | resolve k p d => exact resolveDial_J cs.sw cs.g cs.limTaint k p d h
@@ -233,6 +233,42 @@ theorem limits_explicit (peerIds : List (List Nat)) (l : Limits) (ops : List COp
     (∀ m, cs.g.lim.limits.maxTot = some m → (cs.sw.est.filter (fun e => !cs.g.exEst.contains e.id)).length ≤ m) :=
   limits_explicit_of_Inv _ (invariant peerIds l ops) ht
 
+/-- the role-override flag of a dial (`DialOpts::override_role()`) is read by nothing -/
+theorem step_ov_irrelevant (cs : CS) (op : Op) (ov ov' : Bool) : step cs (.sw op ov) = step cs (.sw op ov') := rfl
+
+/-- the history with every role-override flag cleared -/
+def eraseOv : COp → COp
+  | .sw op _ => .sw op false
+  | o => o
+
+theorem exec_eraseOv (ops : List COp) : ∀ cs : CS,
+    Machine.exec mstep cs (ops.map eraseOv) = Machine.exec mstep cs ops := by
+  induction ops with
+  | nil => intro cs; rfl
+  | cons o os ih =>
+    intro cs
+    simp only [List.map_cons, Machine.exec, List.foldl_cons] at ih ⊢
+    have : (mstep cs (eraseOv o)).1 = (mstep cs o).1 := by cases o <;> rfl
+    rw [this]; exact ih _
+
+/-- **C52.limits_hold** — histories in which ANY subset of the dials is made with
+`override_role()` (flags arbitrary, on known-peer and address-only dials alike, to bypassed or
+non-bypassed peers): the reached state is the one of the flag-free history, no clause of the Spec is
+violated, and in particular a role-overridden dialed connection counts as pending OUTGOING while it
+is pending and as established OUTGOING once established: `max_pending_outgoing`,
+`max_established_outgoing`, `max_established_per_peer` and the total hold with them included. -/
+theorem limits_hold (peerIds : List (List Nat)) (l : Limits) (ops : List COp)
+    (ht : (Machine.exec mstep (CS.init peerIds l) ops).limTaint = false) :
+    let cs := Machine.exec mstep (CS.init peerIds l) ops
+    cs = Machine.exec mstep (CS.init peerIds l) (ops.map eraseOv) ∧
+    violations cs.g.lim.limits cs.table = [] ∧
+    (∀ m, cs.g.lim.limits.maxPO = some m → (cs.sw.pendOut.filter (fun pc => !cs.g.exDial.contains pc.id)).length ≤ m) ∧
+    (∀ m, cs.g.lim.limits.maxEO = some m → (cs.sw.est.filter (fun e => e.out && !cs.g.exEst.contains e.id)).length ≤ m) ∧
+    (∀ m p, cs.g.lim.limits.maxPP = some m → (cs.sw.est.filter (fun e => e.peer == p && !cs.g.exEst.contains e.id)).length ≤ m) ∧
+    (∀ m, cs.g.lim.limits.maxTot = some m → (cs.sw.est.filter (fun e => !cs.g.exEst.contains e.id)).length ≤ m) := by
+  have h := limits_explicit_of_Inv _ (invariant peerIds l ops) ht
+  exact ⟨(exec_eraseOv ops _).symm, limits peerIds l ops ht, h.2.1, h.2.2.2.1, h.2.2.2.2.1, h.2.2.2.2.2⟩
+
 /-- **C52.bookkeeping_exact** — no leak, for every history: the behaviour's five sets are exactly
 the Swarm's tables (pending outgoing: the dials the behaviour was asked to count), so every
 denial, failure, abort and close removes the id. -/
@@ -264,8 +300,8 @@ before the step -/
 the limits behaviour (no probe denial), and a third one from a bypassed peer is admitted -/
 example :
     let cs0 := CS.init [[0], [1], [2], [3]] { maxEI := some 1 }
-    let ops : List COp := [.sw (.incoming false), .sw (.resolveIn 0 1 false), .sw (.incoming false),
-      .sw (.resolveIn 1 2 false), .bypass 3, .sw (.incoming false), .sw (.resolveIn 2 3 false)]
+    let ops : List COp := [.sw (.incoming false) false, .sw (.resolveIn 0 1 false) false, .sw (.incoming false) false,
+      .sw (.resolveIn 1 2 false) false, .bypass 3, .sw (.incoming false) false, .sw (.resolveIn 2 3 false) false]
     let cs := Machine.exec mstep cs0 ops
     (cs.sw.est.map (·.id), cs.g.lim.estIn, cs.g.exEst, cs.limTaint) = ([0, 2], [0, 2], [2], false) := by
   decide
@@ -279,6 +315,7 @@ end C52
 #print axioms C52.invariant
 #print axioms C52.limits
 #print axioms C52.limits_explicit
+#print axioms C52.limits_hold
 #print axioms C52.bookkeeping_exact
 #print axioms C52.ids_unique
 #print axioms C52.checkLimit_at_limit
